@@ -691,3 +691,46 @@ func crlfRule(R string) RuleFunc {
 var crlfTable = map[string]string{
 	"stateEndValue": "dispatcher: it re-dispatches the byte to stateAfterObjectKey / stateAfterObjectValue / stateAfterArrayItem / stateEndTop according to the lexeme stack (each of which absorbs a second line end: their own obligations); its error paths belong to lexeme-stack configurations in which the scanner cannot rest in this state after a line end",
 }
+
+// c17empty: a rule text without an array is refused.
+func c17empty(c *core.Ctx) {
+	const R = "C17.empty"
+	c.Rule(R, "Enum.doCompile refuses a text in which no ArrayBegin lexeme was found: a flag is set in `case lexeme.ArrayBegin` and, after the lexeme loop, its negation returns ErrEnumArrayExpected. The grammar product C17.grammar starts from configurations that have seen the opening bracket; the empty and the blank text produce no lexeme at all and would otherwise pass Check() with an empty value list")
+	c.Floor(R, 1)
+	d := c.P.FindDecl("(*rules/enum.Enum).doCompile")
+	if d == nil {
+		c.Unresolved(R, "(*rules/enum.Enum).doCompile")
+		return
+	}
+	flag := ""
+	ast.Inspect(d.Decl.Body, func(n ast.Node) bool {
+		cc, ok := n.(*ast.CaseClause)
+		if !ok {
+			return true
+		}
+		for _, e := range cc.List {
+			if core.ExprStr(e) == "lexeme.ArrayBegin" {
+				for _, st := range cc.Body {
+					if as, ok := st.(*ast.AssignStmt); ok && len(as.Lhs) == 1 && core.ExprStr(as.Rhs[0]) == "true" {
+						flag = core.ExprStr(as.Lhs[0])
+					}
+				}
+			}
+		}
+		return true
+	})
+	refuses := false
+	if flag != "" {
+		for _, st := range d.Decl.Body.List {
+			if ifs, ok := st.(*ast.IfStmt); ok && core.ExprStr(ifs.Cond) == "!"+flag {
+				ast.Inspect(ifs.Body, func(m ast.Node) bool {
+					if r, ok := m.(*ast.ReturnStmt); ok && len(r.Results) == 1 && strings.Contains(core.ExprStr(r.Results[0]), "ErrEnumArrayExpected") {
+						refuses = true
+					}
+					return true
+				})
+			}
+		}
+	}
+	c.Check(flag != "" && refuses, R, "doCompile:array-required", c.P.Pos(d.Decl.Pos()), "doCompile returns ErrEnumArrayExpected when no array was found", "a text without any lexeme (empty, blank) is accepted as an enum rule with no values")
+}
